@@ -451,6 +451,52 @@ pub fn deep_shape(depth: usize, shape: &str) {
     println!("DEEP {} {} {}", depth, a, b);
 }
 
+/// `if`/`else`, else-less `if`, `block` and `loop` of type `(i32) -> (i32)` and an `if`/`else` of type
+/// `(i32 i64) -> (i64 i32)`, nested in each other: every sequence carries a type operand
+fn multi_value_constructs() -> Vec<u8> {
+    use wasm_encoder::{BlockType, CodeSection, ExportKind, ExportSection, Function, FunctionSection, Instruction as I, Module, TypeSection, ValType};
+    let mut m = Module::new();
+    let mut t = TypeSection::new();
+    t.function([], []);
+    t.function([ValType::I32], [ValType::I32]);
+    t.function([ValType::I32, ValType::I64], [ValType::I64, ValType::I32]);
+    m.section(&t);
+    let mut fs = FunctionSection::new();
+    fs.function(0);
+    fs.function(0);
+    m.section(&fs);
+    let mut ex = ExportSection::new();
+    ex.export("a", ExportKind::Func, 0);
+    ex.export("b", ExportKind::Func, 1);
+    m.section(&ex);
+    let mut code = CodeSection::new();
+    let mut f = Function::new([]);
+    for i in [
+        I::I32Const(7), I::I32Const(1), I::If(BlockType::FunctionType(1)), I::I32Eqz, I::Else, I::I32Popcnt, I::End, I::Drop,
+        I::I32Const(7), I::I32Const(0), I::If(BlockType::FunctionType(1)), I::I32Eqz, I::End, I::Drop,
+        I::I32Const(7), I::Block(BlockType::FunctionType(1)),
+        I::Loop(BlockType::FunctionType(1)),
+        I::I32Const(1), I::If(BlockType::FunctionType(1)), I::I32Clz, I::Else, I::I32Const(0), I::If(BlockType::FunctionType(1)), I::I32Ctz, I::Else, I::I32Eqz, I::End, I::End,
+        I::End, I::End, I::Drop, I::End,
+    ] {
+        f.instruction(&i);
+    }
+    code.function(&f);
+    let mut g = Function::new([]);
+    for i in [
+        I::I32Const(1), I::I64Const(2), I::I32Const(1), I::If(BlockType::FunctionType(2)),
+        I::Drop, I::Drop, I::I64Const(3), I::I32Const(4),
+        I::Else,
+        I::Drop, I::Drop, I::I64Const(5), I::I32Const(6),
+        I::End, I::Drop, I::Drop, I::End,
+    ] {
+        g.instruction(&i);
+    }
+    code.function(&g);
+    m.section(&code);
+    m.finish()
+}
+
 pub fn main(seed: u64, tier: &str, only: Option<&str>) {
     let mut stats = Stats::default();
     if let Some(o) = only {
@@ -461,6 +507,9 @@ pub fn main(seed: u64, tier: &str, only: Option<&str>) {
         }
         return;
     }
+    // fixed shapes the random generator reaches only rarely: constructs whose block type is a
+    // type-section entry (the sequence itself has a type operand), in particular both arms of an if
+    run_module("vfix-multi", &multi_value_constructs(), &mut stats);
     let n = if tier == "thorough" { 1500 * crate::out::thorough_scale() } else { 90 };
     for case in 0..n {
         let mut rng = Rng::new(seed ^ 0x7157, case as u64);
